@@ -79,11 +79,15 @@ func genArgs(t *rapid.T, label string, minLen int) []model.B {
 		big := rapid.SampledFrom([]int{-1, 0, n / 2, n - 1}).Draw(t, label+"_bigidx")
 		tile := rapid.SliceOfN(genByteIn(alphaASCII), 1, 4).Draw(t, label+"_tile")
 		// sparse: every argument as short as allowed (many arguments, little text)
-		sparse := rapid.IntRange(0, 2).Draw(t, label+"_sparse") == 0
+		mode := rapid.IntRange(0, 5).Draw(t, label+"_sparse")
+		sparse := mode < 2
 		for i := range args {
 			l := minLen + (base+i)%7
 			if sparse {
 				l = minLen
+			}
+			if mode == 5 {
+				l = 255 // as much text as the layout can carry: bodies beyond 65536 octets
 			}
 			if i == big {
 				l = 255
